@@ -331,6 +331,33 @@ STRENGTHENED.update({
 CAUGHT_BY_OTHER = {"w2_c07_m2": ["C18"], "w2_c15_m1": ["C09"], "w3_c01_m1": ["C02"], "w3_c02_m2": ["C01"], "w3_c05_m2": ["C11"],
                    "w3_c07_m1": ["C08"], "w3_c09_m1": ["C18"], "w3_c15_m1": ["C09"], "w3_c17_m2": ["C02"], "w3_c18_m1": ["C09"], "w4_c02_m1": ["C01"], "w4_c18_m2": ["C17"], "w4_c03_m1": ["C02"], "w5_c02_m1": ["C01"], "w5_c02_m2": ["C03"], "w5_c03_m1": ["C12"], "w5_c05_m2": ["C11"], "w5_c07_m2": ["C08"], "w5_c09_m2": ["C07"], "w5_c10_m2": ["C14"], "c09_m2": ["C07", "C09"], "c07_m2": ["C07", "C08"]}
 
+# wave 6 (12 properties, one change each; phase B on seed 0 - the strengthened checks were run with tools/with_patch.sh)
+NEEDS.update({
+ "w6_c01_m1": ("response.py _raw_read read1 end-of-body test compares length_remaining with _fp_bytes_read + len(data)", "Content-Length body consumed by read1() in two or more calls, caller stops at the announced length, response kept referenced"),
+ "w6_c02_m1": ("connectionpool.py _put_conn: the 'pool is full' warning reads self.pool.qsize() again instead of the local snapshot", "block=False pool over capacity + close() by another thread between the failed put() and the log call"),
+ "w6_c03_m1": ("response.py BaseHTTPResponse.__init__: Transfer-Encoding value no longer lower-cased", "Transfer-Encoding: Chunked with a Content-Length alongside, read(Content-Length), release_conn() then close(), late HTTP-shaped tail"),
+ "w6_c04_m1": ("util/retry.py parse_retry_after: calendar.timegm(tuple[:9]) instead of email.utils.mktime_tz", "413/429/503 with Retry-After as a date written in a zone other than GMT"),
+ "w6_c05_m1": ("poolmanager.py _merge_pool_kwargs: `if not value` instead of `if value is None`", "connection_from_url/_host with pool_kwargs={'retries': False|0} + a followable 3xx"),
+ "w6_c06_m1": ("poolmanager.py urlopen: cross-origin strip moved before the 303 rewrite, which rebuilds the headers from the unstripped original", "303 + cross-origin Location + request that is not a body-less GET + header of the strip set"),
+ "w6_c09_m1": ("connection.py HTTPSConnection.connect: server_hostname override also used for the TLS leg to an https proxy", "https proxy + tunnelled https destination + server_hostname= + proxy certificate without that name"),
+ "w6_c11_m1": ("util/request.py body_to_chunks: `if not body` instead of `if body is None`", "empty but present body (b'', '', [], ...) on GET/HEAD/DELETE/OPTIONS, no caller framing header"),
+ "w6_c12_m1": ("response.py ZstdDecoder.decompress: finished decompressobj no longer replaced before the next input", "multi-frame zstd body, an input piece ending exactly on a frame end with more data following"),
+ "w6_c13_m1": ("response.py ZstdDecoder.decompress: later frames decoded with a local object never stored back (flush() inspects the first frame's)", "multi-frame zstd stream cut inside the second or a later frame, bytes from the first frame's end to the cut in one decompress() call"),
+ "w6_c15_m1": ("connectionpool.py _normalize_host: bracketed IPv6 literal lower-cased together with its zone id", "IPv6 literal with a zone id containing an upper-case letter"),
+ "w6_c19_m1": ("connection.py HTTPConnection: settimeout skipped when the value equals the one remembered on the connection object (never reset on reconnect)", "plain http, connect != read timeout, same connection object closed and reopened, same read timeout as before"),
+})
+STRENGTHENED.update({
+ "w6_c01_m1": "C01 disposal op read1x: read1() in pieces up to the announced length, no extra empty read",
+ "w6_c03_m1": "(C03 unchanged: caught by C12's Transfer-Encoding value spellings)",
+ "w6_c04_m1": "C04 Retry-After dates spelt in +0200 / -0500 / GMT by attempt number (same instant)",
+ "w6_c05_m1": "C05 family F5: the policy given for one pool through pool_kwargs=, every policy value",
+ "w6_c06_m1": "C06 quick tier: POST on a reduced product (303 rewrite composed with the cross-origin strip)",
+ "w6_c09_m1": "C09 context 'sni-override': caller-given server_hostname on every tunnel row, both proxy schemes",
+ "w6_c13_m1": "C13 multi-frame zstd (2 and 3 frames) cut at every byte, verdict by whether the cut falls between frames",
+})
+CAUGHT_BY_OTHER.update({"w6_c03_m1": ["C12"]})
+
+
 def main():
     out_root = "/verif/seeded"
     os.makedirs(out_root, exist_ok=True)
